@@ -9,6 +9,7 @@ From Coq Require Import List String NArith ZArith Bool.
 From Verif Require Import Base.Text Gen.GenPanicSites Model.Lexer Model.Literals Model.Analyzer Model.Decode
   Proofs.LexerTile Proofs.PanicInventory Proofs.LitProofs Proofs.AnalyzerProofs Proofs.Utf.
 From Verif Require Model.StParser Model.DeclParser Model.StInstance Proofs.StExprProofs Proofs.StStmtProofs Proofs.StInstanceProofs Proofs.DeclProofs Proofs.TypeProofs Proofs.DeclInstanceProofs Proofs.LibProofs.
+From Verif Require Base.Res Model.ExprParser Proofs.ExprParserProofs Proofs.ExprInstance Proofs.ChainDepth Proofs.ChainInstance.
 From Verif Require Import Gen.GenTokens.
 Import ListNotations.
 
@@ -70,3 +71,21 @@ Theorem C04_types_parser_fuel : forall (l : list LibProofs.swe) wend,
   Forall LibProofs.wf_we l -> StExprProofs.all_triv token StInstance.tok_class wend ->
   StInstance.parse_lib2_tokens (LibProofs.flat_lib2 l ++ wend) <> StInstance.O4Fuel.
 Proof. exact LibProofs.parse_lib2_fuel. Qed.
+
+(* What the bound "bracket / statement nesting up to depth 12" does not bound: the chain  x op x op ... op x  of n binary
+   operators of one level (any operator of the regenerated table, x an integer constant) has no parenthesis, 2n+1 tokens,
+   and the expression parser model reads it as a tree n+1 levels deep.  The recursive folds and visitors of the analyzer and
+   the renderer descend that tree: their native stack grows with the LENGTH of an expression.  (The cause of the recorded
+   finding operator-chain-stack-overflow; the stack itself is observed by the search, not proved.) *)
+Theorem C04_operator_chain_is_deep : forall k lv o (t x : token) n rest,
+  In (k, lv, o) ExprInstance.op_kinds -> t_kind t = k -> t_kind x = KDigits ->
+  ExprParserProofs.follow_lt token ExprParser.binop ExprParser.tok_triv ExprParser.tok_bop lv rest ->
+  ChainDepth.parens token ExprParser.binop ExprParser.unop ExprParser.leaf
+    (ChainDepth.chain token ExprParser.binop ExprParser.unop ExprParser.leaf t lv o x (ExprParser.LInt (t_text x)) n) = 0%nat /\
+  List.length (ExprParserProofs.flat token ExprParser.binop ExprParser.unop ExprParser.leaf
+    (ChainDepth.chain token ExprParser.binop ExprParser.unop ExprParser.leaf t lv o x (ExprParser.LInt (t_text x)) n)) = (2 * n + 1)%nat /\
+  exists f0, forall f, (f0 <= f)%nat -> exists e,
+    ExprParser.parse_expr f lv (ExprParserProofs.flat token ExprParser.binop ExprParser.unop ExprParser.leaf
+      (ChainDepth.chain token ExprParser.binop ExprParser.unop ExprParser.leaf t lv o x (ExprParser.LInt (t_text x)) n) ++ rest) = Base.Res.Ok (e, rest) /\
+    ChainDepth.depth ExprParser.binop ExprParser.unop ExprParser.leaf e = S n.
+Proof. exact ChainInstance.chain_is_deep. Qed.
